@@ -10,7 +10,7 @@ pub const HTTP_RESPONSE: &str = "HTTP/1.1 200 OK\nContent-Length: 0\nConnection:
 
 fn budget(t: Tier) -> u64 {
     match t {
-        Tier::Quick => 640,
+        Tier::Quick => 1_360,
         Tier::Thorough => 30_000,
     }
 }
@@ -20,7 +20,17 @@ fn gen(seed: u64, idx: u64, _tier: Tier) -> Plan {
     let example = idx % 17 == 16;
     let mut plan = Plan::new("C15", if example { "c15.example_cfg" } else { "c15.option_space" }, seed);
     let mut s = ServerSpec::basic(Mode::F, &random_seed_hex(&mut rng));
-    world_knobs(&mut rng, &mut plan, false);
+    world_knobs(&mut rng, &mut plan, idx % 3 == 1);
+    // start-up under stalled tasks, spurious polls and late timers; the path itself stays loss-free
+    // so that the request and health oracles remain exact
+    {
+        let f = &mut plan.world.faults;
+        f.c2s_drop = 0;
+        f.s2c_drop = 0;
+        f.c2s_dup = 0;
+        f.s2c_dup = 0;
+        f.c2s_phantom = 0;
+    }
     // every worker is certain to receive traffic
     plan.world.round_robin = true;
     plan.world.rcv_cap = 4096;
@@ -65,7 +75,10 @@ fn gen(seed: u64, idx: u64, _tier: Tier) -> Plan {
     plan.server = Some(s);
     // traffic: several rounds of workers*4 requests (round robin reaches every worker)
     let mut ctr = seed ^ 0xc15;
-    let mut t = 30_000u64;
+    // in the fault profile start-up may take long (stalled tasks): traffic begins after the
+    // fault window, which covers start-up only
+    let faulty_boot = idx % 3 == 1;
+    let mut t = if faulty_boot { 600_000u64 } else { 30_000u64 };
     if health && rng.chance(1, 2) {
         // two connects before the workers can possibly poll
         let t0 = *rng.pick(&[1u64, 30, 100, 400]);
@@ -89,6 +102,9 @@ fn gen(seed: u64, idx: u64, _tier: Tier) -> Plan {
     }
     sentinels(&mut plan, 2, t);
     settle(&mut plan, 1400);
+    if faulty_boot {
+        plan.world.faults_until_ms = 400;
+    }
     plan
 }
 
@@ -135,7 +151,14 @@ fn check(plan: &Plan, out: &RunOut) -> CheckOut {
         let valid_total = v.recvs.iter().filter(|q| matches!(&q.class, Ok(i) if i.must == r::Must::Answer)).count();
         let receiving: std::collections::BTreeSet<usize> = v.recvs.iter().filter(|q| matches!(&q.class, Ok(i) if i.must == r::Must::Answer)).map(|q| q.task).collect();
         let answering: std::collections::BTreeSet<usize> = v.sends.iter().map(|s| s.task).collect();
-        if valid_total >= configured * 2 && b.panics.is_empty() {
+        // (only meaningful if every worker socket was bound before the first datagram arrived)
+        let last_bind = w.history.iter().filter(|r| matches!(r.ev, dsim::Ev::UdpBind { proc, .. } if proc == b.proc)).map(|r| r.seq).max().unwrap_or(0);
+        let first_delivery = w.history.iter().find(|r| matches!(r.ev, dsim::Ev::Deliver { sock, .. } if w.procs[w.socks[sock].proc].sut)).map(|r| r.seq).unwrap_or(u64::MAX);
+        let lost_early = w.history.iter().any(|r| matches!(r.ev, dsim::Ev::Lost { why: "no_socket", .. }));
+        if last_bind > first_delivery || lost_early {
+            co.probe("traffic_before_boot_complete");
+        }
+        if valid_total >= configured * 2 && b.panics.is_empty() && last_bind < first_delivery && !lost_early {
             let delivered_to: std::collections::BTreeSet<usize> = w.socks.iter().filter(|s| w.procs[s.proc].sut && s.delivered > 0).map(|s| s.id).collect();
             if delivered_to.len() != configured {
                 co.violate("C15", "fewer_workers_than_configured", format!("C15|sockets_receiving_differs|health={}|workers{}", health, wclass), format!("{} worker sockets received traffic under round-robin distribution, {} workers configured", delivered_to.len(), configured));
@@ -172,8 +195,10 @@ fn check(plan: &Plan, out: &RunOut) -> CheckOut {
             let ok_bytes = conn.written == HTTP_RESPONSE.as_bytes();
             let closed_in_time = conn.shutdown_at.map(|t| t.saturating_sub(conn.connected_at) <= dsim::SEC).unwrap_or(false);
             // a connect before the server has bound the port is refused by the kernel, not by the server
-            let listen_t = w.history.iter().find_map(|r| match &r.ev { dsim::Ev::TcpListen { ok: true, .. } => Some(r.t), _ => None });
-            if conn.refused && listen_t.map(|t| conn.connected_at < t).unwrap_or(true) {
+            // (ordered by event sequence number, not by simulated time: both can share an instant)
+            let listen_seq = w.history.iter().find_map(|r| match &r.ev { dsim::Ev::TcpListen { ok: true, .. } => Some(r.seq), _ => None });
+            let connect_seq = w.history.iter().find_map(|r| match &r.ev { dsim::Ev::TcpConnect { conn: cc, .. } if cc == c => Some(r.seq), _ => None }).unwrap_or(0);
+            if conn.refused && listen_seq.map(|ls| connect_seq < ls).unwrap_or(true) {
                 co.probe("connect_before_listen");
                 continue;
             }
